@@ -302,6 +302,10 @@ def fam_sequences():
         ("seq:str-char-is-fresh:nested", 'stel w = ["a", "bc", ""]; stel u = w[0]; stel c = u[0]; c[0] = "Q"; stel v = w[1]; stel d = v[0 - 1]; d[0] = "R"; [w, c, d]'),
         ("seq:str-char-is-fresh:fn", 'functie eerste(t) { t[0] }; functie zet(t) { t[0] = "!"; t }; stel s = "x"; stel c = eerste(s); zet(c); [s, c]'),
         ("seq:str-char-is-fresh:loop", 'stel s = "a"; stel acc = []; stel i = 0; zolang i < 2 { stel c = s[0]; c[0] = "n"; i += 1; }; s'),
+        # equality of text is by content, also after the text was changed in place
+        ("seq:str-eq-after-set", 'stel a = "kat"; a[0] = "m"; stel b = "mat"; [a == "mat", "mat" == a, a != "mat", a == b, a == "kat", a == a]'),
+        ("seq:str-eq-after-set-sym", 'stel a = "kat"; a[%s] = "m"; [a == "mat", a == "kmt", a == "kam", a == "kat", lengte(a)]' % H0),
+        ("seq:str-eq-after-set-len", 'stel a = "ab"; a[1] = "bcd"; stel c = "abcd"; c[3] = "d"; [a == "abcd", a == c, c == "abcd", a == "ab"]'),
         ("seq:list-literal-is-fresh", "functie mk() { [1, 2] }; stel a = mk(); stel b = mk(); a[%s] = 9; [a, b]" % H0),
         ("seq:list-elem-array-is-shared", "stel in = [1]; stel a = [in, in]; stel x = a[%s]; x[0] = 5; [a, in]" % H0),
     ]
@@ -352,6 +356,9 @@ def fam_boundary():
         ("bnd:float-div-zero", "[1.0 / 0.0, 0.0 / 0.0, 1.0 % 0.0]"),
         ("bnd:nan-ordering", "stel n = 0.0 / 0.0; [n < 1.0, n <= 1.0, n > 1.0, n >= 1.0, 1.0 < n, 1.0 >= n, n == n, n != n, n < n]"),
         ("bnd:inf-ordering", "stel i = 1.0 / 0.0; stel m = 0.0 - i; [i > 1.0, m < i, i == i, i - i < 1.0, i + m >= 0.0, m <= m, 0.0 * i > 1.0]"),
+        ("bnd:nan-negated-comparisons", "stel n = 0.0 / 0.0; [!(n < 1.0), !(n <= 1.0), !(n > 1.0), !(n >= 1.0), !(1.0 < n), !(n == n), !(n != n), !(2.0 < 1.0), !(1.0 < 2.0)]"),
+        ("bnd:nan-negated-in-fn", "functie chk(x, g) { als !(x < g) { antwoord 1; }; als !(x >= g) { antwoord 2; }; 3 }; stel n = 0.0 / 0.0; [chk(n, 10.0), chk(5.0, 10.0), chk(50.0, 10.0)]"),
+        ("bnd:nan-same-object", "stel n = 0.0 / 0.0; stel kopie = n; functie zelf(x) { [x == x, x != x] }; [n == n, n != n, n == kopie, zelf(n), zelf(1.5), zelf(\"s\"), zelf(3)]"),
         ("bnd:nan-in-condition", 'stel n = 0.0 / 0.0; stel k = 0; zolang n < 1.0 { k += 1; als k > 2 { stop; } }; als n >= 0.0 { print("ge") } anders { print("niet ge") }; k'),
         ("bnd:self-init-global", "stel x = x"),
         ("bnd:self-init-global-arith", 'print("a"); stel x = x + 1'),
@@ -655,6 +662,20 @@ def fam_pairs():
                             "functie f(n) { n %s %s }; f(%s)" % (MIRROR[op], a, b)))
                 out.append(("pair:mirror-local2:" + nm, "functie f(n) { n %s %s }; f(%s)" % (op, b, a),
                             "functie f(n) { %s %s n }; f(%s)" % (b, MIRROR[op], a)))
+    # operands of another type next to the neutral / absorbing literals 0 and 1 (where an "x + 0 is x" shortcut would skip
+    # the same-type rule): literal value vs the same value held in a parameter / a global / a block-local, either side
+    values = [("float", "1.5"), ("bool", "ja"), ("text", '"s"'), ("list", "[1]"), ("null", "als nee { 1 }"), ("int", H0)]
+    for vn, v in values:
+        for op, c in (("+", 0), ("-", 0), ("*", 1), ("/", 1), ("*", 0), ("+", 1), ("%", 1), ("<", 0), ("==", 0)):
+            for side in ("r", "l"):
+                e_lit = "%s %s %s" % ((v, op, c) if side == "r" else (c, op, v))
+                e_x = "x %s %s" % (op, c) if side == "r" else "%s %s x" % (c, op)
+                nm = "%s:%s%d:%s" % (vn, {"+": "add", "-": "sub", "*": "mul", "/": "div", "%": "rem", "<": "lt", "==": "eq"}[op], c, side)
+                base = "stel uit = %s; uit" % e_lit if vn != "null" else "stel leeg = %s; stel uit = %s; uit" % (v, e_lit.replace(v, "leeg"))
+                arg = v
+                out.append(("pair:typed-neutral:param:" + nm, base, "functie f(x) { %s }; f(%s)" % (e_x, arg)))
+                out.append(("pair:typed-neutral:block-local:" + nm, base, "functie f(p) { stel pad = 0; { stel x = p; %s } }; f(%s)" % (e_x, arg)))
+                out.append(("pair:typed-neutral:global:" + nm, base, "stel x = %s; %s" % (arg, e_x)))
     # literal operand vs variable holding it, inside richer expressions
     exprs = ["x * 2 + %s" % H1, "(%s - x) %% 7" % H1, "[x, %s, x + %s]" % (H1, H1), "als x < %s { x } anders { %s }" % (H1, H1),
              "x / %s + x %% %s" % (H1, H1)]
